@@ -39,7 +39,10 @@ def run(ctx, replay):
     # the schema store (field / tag key ids of one metric) at the level of its lock sections: all three protective
     # steps on -> Stable / Injective / Function hold; each one off (the pinned code) -> counterexample
     ctx.model_check("SchemaStore", "MCSchemaStore.cfg", timeout=900)
-    for dev in ("MCSchemaStore_dev_private.cfg", "MCSchemaStore_dev_markall.cfg", "MCSchemaStore_dev_stale.cfg"):
+    # ... and the storage level: one file per flush (deltas), level-0 compaction as a background job; a merger that
+    # drops what its inputs hold (loads them "already persisted", the delta-only writer skips them) -> counterexample
+    for dev in ("MCSchemaStore_dev_private.cfg", "MCSchemaStore_dev_markall.cfg", "MCSchemaStore_dev_stale.cfg",
+                "MCSchemaStore_dev_mergedrop.cfg"):
         ctx.model_check("SchemaStore", dev, expect="violation", timeout=300)
     ctx.model_check("IDDict", "MCIDDict_thorough.cfg" if thorough else "MCIDDict.cfg", timeout=1800)
     for dev in ("mem", "disk", "cache"):
@@ -53,8 +56,18 @@ def run(ctx, replay):
     scr = os.path.join(ctx.scratch, "scr-iddict")
     os.makedirs(scr, exist_ok=True)
     nc, ng, ns, ni, nl = (3000, 400, 200, 60, 400) if thorough else (300, 60, 24, 6, 40)
+    ncp = 64 if thorough else 8
     summ, rc, _ = ctx.run_vdrive(["iddict", "--seed", ctx.seed, "--concurrent", nc, "--gated", ng, "--sequential", ns,
-                                  "--images", ni, "--loop", nl, "--out", tr, "--scratch", scr], timeout=3000)
+                                  "--images", ni, "--loop", nl, "--compact", ncp, "--out", tr, "--scratch", scr],
+                                 timeout=3000)
+    # compaction family: every level-0 compaction that was due (threshold reached / Family.Compact with > 1 file)
+    # must have run to its end, else the histories did not exercise what they are there for
+    ctx.extra["compact_histories"] = ncp
+    ctx.extra["compact_jobs"] = summ["extra"].get("compact_jobs_done", 0)
+    if ncp and (summ["extra"].get("compact_jobs_due", 0) == 0
+                or summ["extra"].get("compact_jobs_done", 0) < summ["extra"].get("compact_jobs_due", 0)):
+        raise vcore.Unresolved("compaction family: %d of %d due level-0 compactions ran to their end" % (
+            summ["extra"].get("compact_jobs_done", 0), summ["extra"].get("compact_jobs_due", 0)))
     ctx.extra["loop_histories"] = nl
     ctx.extra["loop_blocked_steps"] = summ["extra"].get("loop_blocked", 0)
     if summ["extra"].get("loop_stuck", 0):
@@ -165,6 +178,64 @@ def run(ctx, replay):
                     out[i] = json.dumps(d, separators=(",", ":")) + "\n"
                     return out
         return None
+    # compaction family (the ncp traces before the index-loop ones): a name asked again after the merge of the files
+    def renamed_after_compact(lines):
+        # the first get-or-create after a Compact event that returns an id the name already had: another id
+        seen, call, after = {}, {}, False
+        for i, ln in enumerate(lines):
+            if '"ev":"Reset"' in ln:
+                seen, call, after = {}, {}, False
+            elif '"ev":"Compact"' in ln:
+                after = True
+            elif '"ev":"Call"' in ln:
+                d = json.loads(ln)
+                call[d["t"]] = (d["kind"], d["scope"], d["name"])
+            elif '"ev":"Ret"' in ln and '"found":true' in ln:
+                d = json.loads(ln)
+                key = call.pop(d["t"], None)
+                if after and key in seen and key[0] in ("tagkey", "field"):
+                    d["id"] = max(seen.values()) + 1
+                    out = list(lines)
+                    out[i] = json.dumps(d, separators=(",", ":")) + "\n"
+                    return out
+                seen[key] = d["id"]
+        return None
+
+    def lost_after_compact(lines):
+        # a lookup after a Compact event does not find a name that was returned with an id before
+        seen, call, after = set(), {}, False
+        for i, ln in enumerate(lines):
+            if '"ev":"Reset"' in ln:
+                seen, call, after = set(), {}, False
+            elif '"ev":"Compact"' in ln:
+                after = True
+            elif '"ev":"Reopen"' in ln:
+                seen = set()
+            elif '"ev":"Call"' in ln:
+                d = json.loads(ln)
+                call[d["t"]] = (d["kind"], d["scope"], d["name"], d["create"])
+            elif '"ev":"Ret"' in ln and '"found":true' in ln:
+                d = json.loads(ln)
+                c = call.pop(d["t"], None)
+                if after and c and not c[3] and c[:3] in seen:
+                    out = list(lines)
+                    out[i] = json.dumps({"ev": "Ret", "t": d["t"], "found": False, "id": -1, "n": d.get("n", 0)},
+                                        separators=(",", ":")) + "\n"
+                    return out
+                if c:
+                    seen.add(c[:3])
+        return None
+    if ncp:
+        cpt = os.path.join(ctx.scratch, "iddict-compact.ndjson")
+        all_traces = vcore.split_traces(lines)
+        cp_traces = all_traces[len(all_traces) - nl - ncp:len(all_traces) - nl]
+        with open(cpt, "w") as f:
+            for t in cp_traces[:2]:
+                f.write("".join(t))
+        vcore.corrupt_selftest(ctx, "IDDictTrace", "IDDictTrace.cfg", cpt, renamed_after_compact,
+                               "a tag key / field gets another id after the compaction of the schema family")
+        vcore.corrupt_selftest(ctx, "IDDictTrace", "IDDictTrace.cfg", cpt, lost_after_compact,
+                               "a name is not found any more after a compaction")
     if nl:
         loop = os.path.join(ctx.scratch, "iddict-loop.ndjson")
         with open(loop, "w") as f:
@@ -178,5 +249,6 @@ def run(ctx, replay):
         "traces are validated against the abstract dictionary (specification layer of IDDict); the implementation model of the lock sections is bound by TLC refinement and by the gated scenarios that drive the real code through its counterexample windows",
         "concurrent callers: GenMetricID / GenTagKeyID / GenTagValueID / GetMetricID on one shared MetricMetaDatabase (what the metadata goroutine and the shards' index goroutines do); field ids are created by one goroutine",
         "series ids: the shard's index event loop (memdb.NewIndexDatabase over the real index / metadata databases) is driven with rows and flush requests under gated schedules (gates = driver-side wrappers at PrepareFlush, Flush, GenSeriesID and its mid point MetricMetaDatabase.Name()); a scheduled step is recorded as blocked when the loop goroutine is parked at a gate of an earlier item of the channel (single in-order consumer); crash = close of both loops and stores without flush at quiescent points (crash images inside an index flush are C07's)",
+        "compaction family: the level-0 compaction of every kv family of the metadata store and of the shard index store is started (store check with the default threshold of 4 files, or Family.Compact) and joined at quiescent points of sequential histories (names in memory or not, one or two compactions, reopen); compaction concurrent with a flush or with get-or-create calls is not scheduled",
         "crash = the metadata directory copied after each file-system operation of a metadata flush (kv seams); the sequence file is a MAP_SHARED mapping",
     ]
